@@ -1,6 +1,7 @@
 mod catchup;
 mod common;
 mod fd;
+mod hostile;
 mod kv;
 mod listen;
 mod mtu;
